@@ -12,6 +12,9 @@ EXTENDS MpqBuild, Json, IOUtils, TLCExt
 
 Rec == ndJsonDeserialize(IOEnv.TRACE)
 TrS == atoi(IOEnv.C01_S)            \* sector size of this trace shard (cfg: SectorSize <- TrS)
+\* does the tree under test carry the F-C01-a fix (COMPRESS on every sectored file)?  Set by checks/c01.py from the
+\* builder source; only the DRIFT comparison of writer flags depends on it (the verdict uses the observed flags)
+TrFlagFix == "C01_FLAGFIX" \in DOMAIN IOEnv /\ IOEnv.C01_FLAGFIX = "1"
 TrKey(nm) == <<0, 0>>               \* key derivation is checked on the model (MC_MpqBuild), not in traces
 VARIABLE tl
 
